@@ -14,7 +14,9 @@ EXPLANATION = (
     "cover, wildcard cover/match, type and CNAME bits clear, opt-out only for DS, wildcard label count < qname labels); a ninth "
     "Secure origin is a violation; (G3) find_covering_record's closure returns true only for non-matching records and, in the "
     "normal arm, owner < target and target < next, in the wrap-around arm owner < target or target < next; (S1) only NSEC3s "
-    "whose owner has a Secure record reach verify_nsec3.")
+    "that are themselves Secure reach verify_nsec3 (F31).  After F33: the closest encloser proof is taken only from a matching NSEC3 without "
+    "DNAME and without NS-but-not-SOA (RFC 5155 8.3), the NODATA match refuses an ancestor-delegation NSEC3 for non-DS types (RFC 6840 4.1); "
+    "(A1) as C08; (B1) type bit map decoder; (N1) the iteration limits reach the per-request handle unswapped (field/argument name agreement).")
 NOT_DECIDED = ("Logical entailment over all zones and NSEC3 subsets, completeness against the server's own proofs, and hash values "
                "- relations over runtime values. The guard sets are the RFC's stated premises. RFC 6840 4.1 ancestor-delegation "
                "checks (DESIGN F10) are not in the property's statement (it cites RFC 5155 section 8) and are not required here.")
